@@ -927,6 +927,9 @@ static const uint8_t *unmarshal_one_def(
         /* Read flags and other fixed values */
         def->flags = readint(st, &data);
         def->slotcount = readnat(st, &data);
+        if (def->slotcount > 0x1000000) {
+            janet_panic("funcdef has too many slots");
+        }
         def->arity = readnat(st, &data);
         def->min_arity = readnat(st, &data);
         def->max_arity = readnat(st, &data);
